@@ -1125,7 +1125,7 @@ fn fixed(detached: bool, transport: Transport) -> Vec<Scenario> {
     drop(add);
     // the same request made by dropping the server (CloseHandle::drop)
     let n = v.len();
-    for i in if raw { vec![1usize, 5, 6, 9] } else { vec![5usize, 6] } {
+    for i in if raw { vec![1usize, 5, 6, 8, 9] } else { vec![5usize, 6, 8] } {
         if i < n {
             let mut s = v[i].clone();
             s.via_drop = true;
